@@ -139,6 +139,17 @@ def evaluate(case):
         if fd and not out['viol']:
             k = sorted(fd)[0]
             out['viol'].append(('frame|%s|flat' % case_summary(case), 'flat diff not empty: %s %r' % (k, fd[k])))
+    if any(b.get('split') for b in case['blocks']):
+        # MUST: same GIR as with all annotations on the identifier line
+        flat_case = {'blocks': [{k: v for k, v in b.items() if k != 'split'} for b in case['blocks']]}
+        res1 = skel.scan(model.render(flat_case))
+        out['must'] += 1
+        if res1.xml != res.xml:
+            fd = girread.diff(girread.flat(girread.parse(res1.xml)), girread.flat(root)) if res1.xml else {}
+            k = sorted(fd)[0] if fd else None
+            out['viol'].append(('layout|identifier-annotations-on-continuation-lines|%s' % case_summary(case),
+                                'GIR differs from the one-line layout of the same annotations: %s %r'
+                                % (k, fd.get(k))))
     out['outcome'] = tuple(sorted({(kind_of(i, va, vb), f) for (i, f) in d}))
     return out
 
@@ -219,8 +230,35 @@ def competition_cases():
     return out
 
 
-def quick_cases():
+def layout_cases():
+    """identifier annotations split over 2 and 3 lines (one per continuation line)"""
     out = []
+    A = ['attributes', 'my.key=val']
+    for name in sorted(ELEMENTS):
+        e = ELEMENTS[name]
+        combos = [[['skip', None], A], [A, ['skip', None]]]
+        if e['kind'] in FN:
+            combos += [[A, ['rename-to', 'foo_other']], [['skip', None], A, ['rename-to', 'foo_other']],
+                       [['constructor', None], A], [['method', None], A], [['finish-func', 'foo_other'], A, ['skip', None]]]
+        elif e['kind'] in ('record', 'boxed', 'gtstruct', 'union'):
+            combos += [[['foreign', None], ['copy-func', 'foo_rec_dup'], A]]
+        elif e['kind'] == 'class':
+            combos += [[['ref-func', 'foo_obj_dup'], ['unref-func', 'foo_obj_meth'], A]]
+        elif e['kind'] == 'constant':
+            combos += [[['value', '7'], A], [A, ['value', '7'], ['skip', None]]]
+        elif e['kind'] == 'property':
+            combos += [[['transfer', 'full'], ['default-value', '5'], A], [['type', 'utf8'], A]]
+        elif e['kind'] == 'signal':
+            combos += [[['emitter', 'meth'], A]]
+        for items in combos:
+            if name == 'foo_other' and ['rename-to', 'foo_other'] in items:
+                continue
+            out.append({'blocks': [{'name': name, 'items': [list(i) for i in items], 'split': True}]})
+    return out
+
+
+def quick_cases():
+    out = layout_cases()
     for name in sorted(ELEMENTS):
         for it in model.FULL_MENU:
             out.append(single(name, it))
@@ -247,7 +285,7 @@ def _work(chunk):
     for n, case in enumerate(chunk):
         r = evaluate(case)
         nblocks = len(case['blocks'])
-        part.add(evaluations=1, states=1, transitions=sum(len(b['items']) for b in case['blocks']),
+        part.add(evaluations=2 if any(b.get('split') for b in case['blocks']) else 1, states=1, transitions=sum(len(b['items']) for b in case['blocks']),
                  traces_validated_against_impl=1, unspecified=r['unspec'])
         part.outcome(r['outcome'])
         if r['must'] or all(b['name'] not in ELEMENTS for b in case['blocks']) or not r['delta']:
